@@ -33,6 +33,7 @@ pub fn type_of(e: &Expr, env: &VarEnv) -> Ty {
       Expr::Tup(es) => match es.iter().map(|e| type_of(e, env)).collect::<Vec<_>>()[..] {
          [Ty::I32, Ty::I32] => Ty::PairI32,
          [Ty::U32, Ty::U32] => Ty::PairU32,
+         [Ty::DualU32, Ty::U32] => Ty::PairDualU32,
          ref t => panic!("tuple of {t:?}"),
       },
       Expr::Proj(a, _) => match type_of(a, env) {
@@ -40,8 +41,14 @@ pub fn type_of(e: &Expr, env: &VarEnv) -> Ty {
          Ty::PairU32 => Ty::U32,
          t => panic!("projection on {t:?}"),
       },
-      Expr::DualOf(_) => Ty::DualU32,
-      Expr::UnDual(_) => Ty::U32,
+      Expr::DualOf(a) => match type_of(a, env) {
+         Ty::SetU8 => Ty::DualSetU8,
+         _ => Ty::DualU32,
+      },
+      Expr::UnDual(a) => match type_of(a, env) {
+         Ty::DualSetU8 => Ty::SetU8,
+         _ => Ty::U32,
+      },
       Expr::SetSingle(_) | Expr::SetUnion(..) => Ty::SetU8,
       Expr::SetContains(..) | Expr::SetLenGe(..) => Ty::Bool,
       Expr::BSetSingle(_) => Ty::BSetU8,
